@@ -185,8 +185,8 @@ def h_block_loop_canary(ctx, cfg):
     _block_harness(ctx, cfg, False)
 
 
-@harness("blocks.targets_set.seeded_and_extended", props=["C13"], functions=["code_data._blocks.bytes_to_blocks"], configs="any",
-         notes="syntactic obligations on the first loop: targets_set is initialised to a set display containing exactly 0; the only other writes are "
+@harness("blocks.targets_set.seeded_and_extended", props=["C13"], functions=["code_data._blocks.bytes_to_blocks"], configs="any", soft=True,
+         notes="(soft: a sufficient syntactic condition; the semantic counterpart is blocks.bytes_to_blocks.jump_graph) syntactic obligations on the first loop: targets_set is initialised to a set display containing exactly 0; the only other writes are "
                "`targets_set.add(<the decoded jump's target>)` under `isinstance(processed_arg, Jump)`; `targets = sorted(targets_set)`")
 def h_targets(ctx, cfg):
     src = rewrite.Source.of(B)
